@@ -18,6 +18,7 @@
 package main
 
 import (
+	"flag"
 	"fmt"
 	"net"
 	"sort"
@@ -593,7 +594,16 @@ func (g *gen) plugs(side int) []*plug {
 	return ps
 }
 
-func main() { runC09(ParseFlags()) }
+var modeFlag = flag.String("mode", "tree", "tree | redial")
+
+func main() {
+	cfg := ParseFlags()
+	if *modeFlag == "redial" {
+		runRedial(cfg)
+		return
+	}
+	runC09(cfg)
+}
 
 var gateMu sync.Mutex
 var handleEnter = map[erpc.Session]int{}
